@@ -5,7 +5,8 @@ From Verif Require Import Base.Val C34.Model_C34 C34.Spec_C34 C34.Lemmas_C34 C34
 
 (* PARTIAL (domain def_ok): filtering the text of a dump = rendering the filtered dump, for every
    list of definitions whose values are in `set`'s quoting styles and whose function bodies lie
-   in the body_ok token grammar; blacklist and whitelist mode, variables and functions *)
+   in the body_ok token grammar (literal words, \c, '..', "..", $'..', ${..}, $name, $((..)), "..$x..",
+   nested {..} (..) groups); blacklist and whitelist mode, variables and functions *)
 Theorem filter_commutes_partial : forall ds vars funcs vwl fwl,
   forallb def_ok ds = true -> names_ok vars = true -> names_ok funcs = true ->
   main_run (render ds) vars funcs vwl fwl = MOut (render_filtered vars funcs vwl fwl ds).
@@ -48,8 +49,9 @@ Theorem filter_commutes_refuted_on_bash_dump :
 Proof. exact filter_commutes_refuted_proof. Qed.
 Print Assumptions filter_commutes_refuted_on_bash_dump.
 
-Theorem never_out_of_fuel_refuted :
+(* regression for the repaired empty-delimiter here-document (formerly an infinite loop) *)
+Theorem empty_heredoc_delimiter :
   main_run [102;32;40;41;32;10;123;32;10;32;32;32;32;99;97;116;32;60;60;39;39;10;120;10;10;125;10]%N
-           [] [[102]%N] false false = MFuel.
-Proof. exact never_out_of_fuel_refuted_proof. Qed.
-Print Assumptions never_out_of_fuel_refuted.
+           [] [[102]%N] false false = MOut [10]%N.
+Proof. exact empty_heredoc_delimiter_proof. Qed.
+Print Assumptions empty_heredoc_delimiter.
